@@ -46,6 +46,8 @@ type pshape struct {
 	limit     int // -1 = none
 	prop      string
 	aset      []int // anchors to draw from (nil = the two base anchors); all triples temporal when set
+	global    window // global time bound (after HAVING, before LIMIT); zero value {0,0} is never used: see hasGlobal
+	hasGlobal bool
 	orderText string // the ORDER BY clause as written, when it is not the plain rendering of order (repeated keys)
 }
 
@@ -104,6 +106,9 @@ func (sh pshape) text() string {
 	}
 	if sh.having != "" {
 		q += " having " + sh.having
+	}
+	if sh.hasGlobal {
+		q += sh.global.text()
 	}
 	if sh.limit >= 0 {
 		q += " limit \"" + string([]byte{'0' + byte(sh.limit)}) + "\"^^type:int64"
@@ -300,6 +305,9 @@ var pipeShapes = []pshape{
 	34: {cs: []xclause{xq(qclause{s: bS, p: bP, o: bO})}, okinds: []int{0}, sel: []proj{pS, {binding: "o", op: "count", alias: "n"}}, groupBy: []string{"s"}, limit: 1, prop: "C11"},
 	35: {cs: []xclause{xq(qclause{s: bS, p: bP, o: bO})}, okinds: []int{0}, sel: []proj{pS, {binding: "p"}, pO}, order: []ordKey{{"s", true}}, limit: 1, prop: "C12"},
 	36: {cs: []xclause{xq(qclause{s: bS, p: bP, o: bO})}, okinds: []int{0}, sel: []proj{pS, {binding: "p"}, pO}, limit: 1, prop: "C12"},
+	// ---- LIMIT together with a global time bound over the open clause (the limit is pushed into the driver lookup)
+	44: {cs: []xclause{xq(qclause{s: bS, p: bP, o: bO})}, okinds: []int{0}, temporal: true, sel: []proj{pS, {binding: "p"}, pO}, hasGlobal: true, global: window{2, -1}, limit: 1, prop: "C12"},
+	45: {cs: []xclause{xq(qclause{s: bS, p: bP, o: bO})}, okinds: []int{0}, temporal: true, sel: []proj{pS, {binding: "p"}, pO}, hasGlobal: true, global: window{-1, 2}, limit: 2, prop: "C12x"},
 	// ---- C14: a repeated ORDER BY key does not change the order the keys are applied in
 	31: {cs: []xclause{clSAO}, okinds: []int{0}, sel: []proj{pS, pO}, order: []ordKey{{"s", false}, {"o", false}}, orderText: "order by ?s asc, ?o asc, ?s asc", limit: -1, prop: "C14"},
 	32: {cs: []xclause{clSAO}, okinds: []int{0}, sel: []proj{pS, pO}, order: []ordKey{{"o", true}, {"s", false}}, orderText: "order by ?o desc, ?s asc, ?o desc", limit: -1, prop: "C14"},
@@ -356,7 +364,11 @@ func HarnessPipeline() {
 		verif.Observe("table", tbl.String())
 	}
 	var sols []env
-	for _, a := range xsolutions(sh.cs, data, noWindow) {
+	gw := noWindow
+	if sh.hasGlobal {
+		gw = sh.global
+	}
+	for _, a := range xsolutions(sh.cs, data, gw) {
 		if decide(a.cond) {
 			sols = append(sols, a.e)
 		}
